@@ -103,6 +103,15 @@ def run(ctx):
                                       ncell=rng.randint(3, 12))
             s['cfg']['B'] = rng.randint(1, 8 if quick else 25)
             s['cfg']['fnum'] = rng.randint(1, 10)
+            if _ % 20 == 7:
+                # iteration counts beyond one byte (vote counters must not wrap)
+                s['cfg']['B'] = rng.choice([256, 300, 517])
+                s['Q'] = s['Q'][:2]
+                s['cells'] = s['cells'][:2]
+            if _ % 10 == 3:
+                s['Q'] = [[0] * len(s['qgenes']) for _ in s['cells']]
+                for row in s['Q']:
+                    row[rng.randrange(len(row))] = rng.randint(1, 4)
             scns.append(s)
         rs = campaign(ctx, scns, 'MapRun_Trace_c2s')
         ctx.part('c2s', runs=len(rs),
